@@ -15,8 +15,8 @@ EXPLANATION = (
     "Client::run consumes the client by value, every field of Client that can hold a reply sender is plainly owned (no Arc / Rc / 'static), and drain_transport "
     "drops handle requests instead of serving them — so returning from run drops every pending reply sender; (R4) handle reference counting: Handle::clone / "
     "Drop send HandleCloned / HandleDropped, the client adds / subtracts one, and the run loop leaves when only the client's own handle is left; (R5) in the run loop and while draining, every Err outcome of the select "
-    "(receive or flush error) leads to Err(RunError::Transport(..)) and never back into the loop. NOT decided "
-    "(the larger part): that nothing hangs at any fault point (liveness over schedules), that the broker cleans up."
+    "(receive or flush error) leads to Err(RunError::Transport(..)) and never back into the loop; (R6) the broker-side connection task informs the broker on every exit unless the broker is gone "
+    "(C09-R4, re-evaluated here). NOT decided (the larger part): that nothing hangs at any fault point (liveness over schedules)."
 )
 
 
@@ -191,3 +191,17 @@ def run(rep):
                       "after a %s event the client may continue (or return normally) only on the Ok edge of its result; an error must end the client with Err(RunError::Transport(..)) — swallowing it leaves the client waiting forever on a dead transport" % lab,
                       detail={"edge": [u, v], "back_to_select": sorted(back), "normal_exit": sorted(leak)})
     rep.floor("C15-R5", "transport result events handled in run / drain_transport", n5, 4)
+
+    # ---- R6 the broker side observes the connection as closed -------------------------------------------------------
+    # decided by C09-R4 on the connection task (every exit of Connection::run informs the broker unless the broker is gone);
+    # re-evaluated here because it is the last clause of this property
+    import broker as _broker
+    import c09
+    sub = engine.Report(rep.prop, rep.tier, rep.seed)
+    c09.r4(sub, _broker.load(config=engine.config_for("C15")))
+    pr = sub.per_rule.get("C09-R4", {"obligations": 0, "discharged": 0})
+    for _ in range(pr["discharged"]):
+        rep.ok("C15-R6", "C09-R4:premise", None, nontrivial=False, sample=False)
+    rep.floor("C15-R6", "obligations taken from C09-R4", pr["obligations"], 4)
+    for v in sub.violations:
+        rep.fail("C15-R6", v["def"], "C09-R4:%s" % v["instance"], v["msg"], line=v.get("line"))
